@@ -60,7 +60,7 @@ def main():
         shutil.copy(os.path.join(wt, 'demo', 'README.txt'), os.path.join(dst, 'README.txt'))
     head = sh('git -C %s rev-parse --short HEAD' % wt).stdout.strip()
     meta = {'id': sid, 'property': prop,
-            'origin': 'sub-agent (second round) given only the property text, a note not to repeat the first-round idea, and a scratch worktree of /repo@%s' % head,
+            'origin': 'sub-agent (%s round) given only the property text, a note not to repeat the earlier ideas, and a scratch worktree of /repo@%s' % ({'a': 'first', 'b': 'second', 'c': 'third', 'd': 'fourth'}.get(sid[-1], 'later'), head),
             'change': change, 'needs_to_manifest': needs,
             'confirmed': {'base_commit': head, 'tests_with_change': 'vectors_test 67 passed, sets_test 735 passed (rebuilt in the scratch worktree)',
                           'demo': 'g++ %s -I<include> demo.cc: %s with the change, exit 0 against /repo/include' % (flags, res['with'])},
